@@ -1984,6 +1984,127 @@ def _params(S):
 
 
 # =====================================================================================================
+# single_bubble_model
+# =====================================================================================================
+
+def _scratch_profile(S, ps):
+    """profile object + the same data in a netCDF file of a fresh scratch directory (for save_sim / load_sim)"""
+    prf = build_profile(ps)
+    d = S.tmp('sim')
+    os.makedirs(d)
+    write_profile_nc(S, prf, os.path.join(d, 'profile.nc'))
+    return prf, d
+
+
+def _sbm_spec(S, kind):
+    r = S.r
+    sp = inert_spec(r) if kind == 'inert' else fluid_spec(r, kind)
+    chems = sp['composition'] if (kind != 'inert' and r.random() < 0.5) else ()
+    ps = profile_spec(r, H=r.choice([300., 800., 1500.]), current=r.choice(['none', 'uniform', 'sheared']), chems=chems)
+    z0 = r.uniform(0.25, 0.9) * min(ps['H'], 700.)
+    Tdiff = r.choice([None, None, r.uniform(0.5, 25.)])
+    return {'profile': ps, 'particle': sp, 'z0': z0, 'x0': r.choice([0., r.uniform(-50., 50.)]), 'y0': 0.,
+            'de': lu(r, 5e-4, 1.2e-2), 'dT': Tdiff, 'K': r.choice([1., 1., r.uniform(0.2, 2.)]), 'K_T': r.choice([1., 1., 0.]),
+            'fdis': 10 ** r.uniform(-8, -3), 't_hyd': r.choice([0., 0., r.uniform(1., 500.)]), 'lag_time': r.random() < 0.5,
+            'delta_t': r.choice([10., 30., 100.])}
+
+
+def _sbm_args(spec, prf):
+    T0 = None if spec['dT'] is None else float(prf.get_values(spec['z0'], ['temperature'])[0]) + spec['dT']
+    return dict(X0=np.array([spec['x0'], spec['y0'], spec['z0']]), de=spec['de'], yk=yk_of(spec['particle']), T0=T0, K=spec['K'],
+                K_T=spec['K_T'], fdis=spec['fdis'], t_hyd=spec['t_hyd'], lag_time=spec['lag_time'], delta_t=spec['delta_t'])
+
+
+@builder('sbm_sims', 'single_bubble_model.Model.simulate')
+def _build_sbm(S):
+    from tamoc import single_bubble_model as sbm
+    sims = []
+    kinds = ['gas', 'inert', 'liquid']
+    for k in range(S.reps(S.nsim)):
+        spec = _sbm_spec(S, kinds[k % 3])
+        try:
+            prf, d = _scratch_profile(S, spec['profile'])
+        except CallFailed:
+            continue
+        model = S.attempt('single_bubble_model.Model', 'profile', spec['profile'], lambda: sbm.Model(prf))
+        if model is FAILED:
+            continue
+        a = _sbm_args(spec, prf)
+        obj = build_dbm(spec['particle'])
+
+        def sim():
+            model.simulate(obj, a['X0'].copy(), a['de'], a['yk'].copy(), a['T0'], a['K'], a['K_T'], a['fdis'], a['t_hyd'],
+                           a['lag_time'], a['delta_t'])
+            return model.t, model.y
+        if S.attempt('single_bubble_model.Model.simulate', spec['particle']['kind'], spec, sim) is FAILED:
+            continue
+        sims.append({'model': model, 'spec': spec, 'prf': prf, 'dir': d, 'kind': spec['particle']['kind']})
+    if not sims:
+        raise Blocked('no single-particle simulation completed')
+    return sims
+
+
+TABLE['tamoc.single_bubble_model.Model.simulate'] = lambda S: S.get('sbm_sims')
+
+
+@entry('single_bubble_model.Model', 'single_bubble_model.Model.get_derived_variables', 'single_bubble_model.Model.save_sim',
+       'single_bubble_model.Model.save_txt', 'single_bubble_model.Model.save_derived_variables', 'single_bubble_model.Model.load_sim')
+def _sbm_post(S):
+    from tamoc import single_bubble_model as sbm
+    r = S.r
+    M = 'single_bubble_model.Model.'
+    for sim in S.get('sbm_sims'):
+        model, spec, kind, d = sim['model'], sim['spec'], sim['kind'], sim['dir']
+        comp = list(model.particle.composition)
+        tc = r.choice([None, comp[:1]])
+        S.attempt(M + 'get_derived_variables', kind, dict(spec, track_chems=tc), lambda: model.get_derived_variables(track_chems=tc))
+        f_nc, f_txt, f_der = os.path.join(d, 'sbm.nc'), os.path.join(d, 'sbm_state'), os.path.join(d, 'sbm_derived.txt')
+        S.attempt(M + 'save_txt', kind, spec, lambda: (model.save_txt(f_txt, 'profile.nc', 'C20 synthetic profile'), np.loadtxt(f_txt + '.txt'))[1])
+        S.attempt(M + 'save_derived_variables', kind, dict(spec, track_chems=tc), lambda: model.save_derived_variables(f_der, track_chems=tc))
+        if S.attempt(M + 'save_sim', kind, spec, lambda: model.save_sim(f_nc, 'profile.nc', 'C20 synthetic profile')) is FAILED:
+            continue
+        m2 = sbm.Model(sim['prf'])
+
+        def load(m=m2):
+            m.load_sim(f_nc)
+            return m.t, m.y, m.K_T0, m.delta_t, _particle_numbers(m.particle)
+        S.attempt(M + 'load_sim', kind, spec, load)
+        m3 = S.attempt('single_bubble_model.Model', 'simfile', spec, lambda: sbm.Model(simfile=f_nc))
+        if m3 is not FAILED:
+            S.attempt(M + 'get_derived_variables', kind + ':loaded', spec, lambda: m3.get_derived_variables())
+        # the particle list of the save file read back directly
+        _load_particles_direct(S, f_nc, 'SingleParticle:model-file', spec)
+
+
+@entry('single_bubble_model.ModelParams', 'single_bubble_model.sbm_ic', 'single_bubble_model.derivs', 'single_bubble_model.calculate_path')
+def _sbm_functions(S):
+    from tamoc import single_bubble_model as sbm
+    r = S.r
+    kinds = ['gas', 'liquid', 'inert']
+    for i in range(S.reps()):
+        spec = _sbm_spec(S, kinds[i % 3])
+        kind = spec['particle']['kind']
+        prf = build_profile(spec['profile'])
+        p = S.attempt('single_bubble_model.ModelParams', 'profile', spec['profile'], lambda: sbm.ModelParams(prf), need=True)
+        S.attempt('single_bubble_model.ModelParams', 'profile:attributes', spec['profile'], lambda: [p.rho_r, p.g, p.Ru])
+        a = _sbm_args(spec, prf)
+        obj = build_dbm(spec['particle'])
+        ic = S.attempt('single_bubble_model.sbm_ic', kind, spec,
+                       lambda: (lambda res: (res, (res[1], _particle_numbers(res[0]))))(sbm.sbm_ic(prf, obj, a['X0'].copy(), a['de'], a['yk'].copy(), a['T0'], a['K'], a['K_T'], a['fdis'], a['t_hyd'], a['lag_time'])))
+        if ic is FAILED:
+            continue
+        particle, y0 = ic[0]
+        t = r.choice([0., r.uniform(0., 600.)])
+        S.attempt('single_bubble_model.derivs', kind, dict(spec, t=t, y=y0), lambda: sbm.derivs(t, y0.copy(), prf, particle, p))
+        if i % 5 == 0:
+            short = dict(spec, z0=min(spec['z0'], prf.z_min + 60.))
+            y1 = y0.copy()
+            y1[2] = short['z0']
+            S.attempt('single_bubble_model.calculate_path', kind, dict(short, y0=y1, delta_t=a['delta_t']),
+                      lambda: sbm.calculate_path(prf, particle, p, y1.copy(), a['delta_t']))
+
+
+# =====================================================================================================
 # the check
 # =====================================================================================================
 
